@@ -229,7 +229,7 @@ def run(ctx):
                     "extracted and run at the machine reading (Common.CxxSem.MZ for integers; binary32/binary64 for floats in ocaml/C04/driver.ml), agree with the "
                     "compiled instantiations (harness/C04/tv.cpp, -DRKCOMMON_NO_SIMD) on every case",
                     "props/C04/inventory.py (the overload table and the lifting terms) is part of the specification",
-                    "harness/C04/oracle.cpp (g++ -O1, ASan+UBSan, default SIMD build): independent per-component scalar loops, long double reference for floating sums"]
+                    "harness/C04/oracle.cpp (g++ -O0, ASan+UBSan, default SIMD build): independent per-component scalar loops, long double reference for floating sums"]
     ctx.assumptions += ["floating-point rounding of sums / products chains (dot, length, normalize, interpolate_uv, reduce_add/mul) is the C++ scalar semantics: the theorems "
                         "fix the exact expression tree (left to right); 'within rounding' is compared numerically (k ulp of the sum of magnitudes)",
                         "NaN operands are outside the order hypotheses of the std::less / reduce_min / reduce_max theorems",
